@@ -492,7 +492,12 @@ func (e *env) percentages(idx int64) int64 {
 				continue
 			}
 			if t == 0 {
-				c.Count("percentage/zero-total", 1) // a ratio to zero is not defined by the property
+				// a ratio to zero is not defined by the property - but what is printed next to an entry of
+				// an empty report must still be a number
+				if strings.Contains(s, "NaN") || strings.Contains(s, "Inf") {
+					c.Violationf("percentage/zero-total-not-a-number", cs, "Percentage(%d, 0) = %q", v, s)
+				}
+				c.Count("percentage/zero-total", 1)
 				continue
 			}
 			// a function of |v/total|: the same string for all sign combinations
